@@ -48,6 +48,10 @@ _hdr_fns = ["encode::encode_header", "parser::header::parse_header", "parser::he
             "types::header::{BlpContentTag,Compression,AlphaType} conversions", "types::header::BlpHeader::size"]
 
 # ------------------------------------------------------------------------------- C16.a
+H("C16", "blp", "verif_kani_direct", "thorough", "C16.c BLP2 DXT content: the variant (DXT1/3/5) follows the alpha type alone (0/1/7 as published), for every alpha-depth byte; the level is read with that variant's block size",
+  ["c16c_dxt_variant_follows_alpha_type"], ["parser::direct::parse_direct_content", "parser::direct::blp2::parse_dxtn"],
+  "alpha type symbolic over {None, OneBit, Enhanced}, alpha depth u8 symbolic, 16 level bytes symbolic; zero palette", "4x4 image, no mipmaps, 1040-byte file",
+  stubs=["::std::fmt::format -> String::new()"], timeout=2400)
 H("C16", "blp", _BH, "quick", "C16.a mipmap chain: level i+1 halves each side of level i (min 1), level 0 is the image; the chain reaches 1x1 exactly at "
   "level floor(log2(max(w,h))) <= 15 and stays there",
   ["c16a_mipmap_size_halves_each_side", "c16a_chain_reaches_1x1_at_log2_max"], ["types::header::BlpHeader::mipmap_size"],
